@@ -679,3 +679,101 @@ pub mod demux {
             .map_err(|e| e.to_string())
     }
 }
+
+/// Mirror traits of `pipe::Source` / `pipe::Sink` and the real `DuplexPipe::exchange` on them
+pub mod pipe {
+    use crate::log_utils;
+    use async_trait::async_trait;
+    use bytes::Bytes;
+    use std::io;
+    use std::time::Duration;
+
+    pub enum VData {
+        Chunk(Bytes),
+        Eof,
+    }
+
+    #[async_trait]
+    pub trait VSource: Send {
+        async fn read(&mut self) -> io::Result<VData>;
+        fn consume(&mut self, size: usize) -> io::Result<()>;
+    }
+
+    #[async_trait]
+    pub trait VSink: Send {
+        fn write(&mut self, data: Bytes) -> io::Result<Bytes>;
+        fn eof(&mut self) -> io::Result<()>;
+        async fn wait_writable(&mut self) -> io::Result<()>;
+        async fn flush(&mut self) -> io::Result<()>;
+    }
+
+    struct SourceAdapter(Box<dyn VSource>);
+    struct SinkAdapter(Box<dyn VSink>);
+
+    #[async_trait]
+    impl crate::pipe::Source for SourceAdapter {
+        fn id(&self) -> log_utils::IdChain<u64> {
+            log_utils::IdChain::empty()
+        }
+        async fn read(&mut self) -> io::Result<crate::pipe::Data> {
+            Ok(match self.0.read().await? {
+                VData::Chunk(b) => crate::pipe::Data::Chunk(b),
+                VData::Eof => crate::pipe::Data::Eof,
+            })
+        }
+        fn consume(&mut self, size: usize) -> io::Result<()> {
+            self.0.consume(size)
+        }
+    }
+
+    #[async_trait]
+    impl crate::pipe::Sink for SinkAdapter {
+        fn id(&self) -> log_utils::IdChain<u64> {
+            log_utils::IdChain::empty()
+        }
+        fn write(&mut self, data: Bytes) -> io::Result<Bytes> {
+            self.0.write(data)
+        }
+        fn eof(&mut self) -> io::Result<()> {
+            self.0.eof()
+        }
+        async fn wait_writable(&mut self) -> io::Result<()> {
+            self.0.wait_writable().await
+        }
+        async fn flush(&mut self) -> io::Result<()> {
+            self.0.flush().await
+        }
+    }
+
+    pub fn source_into_real(s: Box<dyn VSource>) -> Box<dyn crate::pipe::Source> {
+        Box::new(SourceAdapter(s))
+    }
+
+    pub fn sink_into_real(s: Box<dyn VSink>) -> Box<dyn crate::pipe::Sink> {
+        Box::new(SinkAdapter(s))
+    }
+
+    /// Runs the real `DuplexPipe::exchange`: `left` relays client -> peer (Outgoing),
+    /// `right` relays peer -> client (Incoming). `metrics(incoming, bytes)` is the update callback.
+    pub async fn duplex_exchange(
+        left: (Box<dyn VSource>, Box<dyn VSink>),
+        right: (Box<dyn VSource>, Box<dyn VSink>),
+        timeout: Duration,
+        metrics: impl Fn(bool, usize) + Send + Clone,
+    ) -> io::Result<()> {
+        let mut pipe = crate::pipe::DuplexPipe::new(
+            (
+                crate::pipe::SimplexDirection::Outgoing,
+                source_into_real(left.0),
+                sink_into_real(left.1),
+            ),
+            (
+                crate::pipe::SimplexDirection::Incoming,
+                source_into_real(right.0),
+                sink_into_real(right.1),
+            ),
+            move |dir, n| metrics(dir == crate::pipe::SimplexDirection::Incoming, n),
+        );
+        pipe.exchange(timeout).await
+    }
+}
